@@ -15,6 +15,16 @@
 #endif
 #include "../common/stdstreams.h"
 #include "../common/gls_contract.h"
+#ifndef VSTD
+// native builds read the text through a real std::ifstream: a scratch file under /var/tmp (or /tmp); an unusable scratch directory is an
+// environment problem, not a finding (exit 77 = "assumption false" for the runner)
+static void verif_open_text(std::ifstream &file, const char *text) {
+    static char path[64]; const char *dirs[2] = { "/var/tmp", "/tmp" }; FILE *fp = 0;
+    for(int k = 0; k < 2 && !fp; k++) { snprintf(path, sizeof path, "%s/verif_c10_%d.p21", dirs[k], (int)getpid()); fp = fopen(path, "w"); }
+    if(!fp) { printf("ASSUME-FALSE scratch file\n"); fflush(stdout); _exit(77); }
+    fputs(text, fp); fclose(fp); file.open(path); unlink(path);
+}
+#endif
 union RdStore { lazyP21DataSectionReader r; RdStore() {} ~RdStore() {} };
 union FrStore { lazyFileReader f; FrStore() {} ~FrStore() {} };
 union ImStore { lazyInstMgr m; ImStore() {} ~ImStore() {} };
@@ -26,7 +36,7 @@ __attribute__((noinline)) long w_next_instance(const char *text, char *kw, int k
 #ifdef VSTD
     file.__load(text); file.opened = true;
 #else
-    { static char path[64]; snprintf(path, sizeof path, "/var/tmp/verif_c10_%d.p21", (int)getpid()); FILE *fp = fopen(path, "w"); fputs(text, fp); fclose(fp); file.open(path); unlink(path); }
+    verif_open_text(file, text);
 #endif
     lazyP21DataSectionReader *r = &rs.r;
     ms.m._errors = &e1;
@@ -49,7 +59,7 @@ __attribute__((noinline)) void w_gls(const char *text, int which, long *endpos, 
 #ifdef VSTD
     file.__load(text); file.opened = true;
 #else
-    { static char path[64]; snprintf(path, sizeof path, "/var/tmp/verif_c10_%d.p21", (int)getpid()); FILE *fp = fopen(path, "w"); fputs(text, fp); fclose(fp); file.open(path); unlink(path); }
+    verif_open_text(file, text);
 #endif
     std::string r = which ? GetLiteralStr_contract(file, &e) : GetLiteralStr(file, &e); *nonempty = r.empty() ? 0 : 1;
     *good = file.good() ? 1 : 0; *eof = file.eof() ? 1 : 0; *sev = (int)e.severity(); *endpos = verif_pos(file);
@@ -68,7 +78,7 @@ __attribute__((noinline)) long w_read_instno(const char *text, long *pos, int *g
 #ifdef VSTD
     file.__load(text); file.opened = true;
 #else
-    { static char path[64]; snprintf(path, sizeof path, "/var/tmp/verif_c10_%d.p21", (int)getpid()); FILE *fp = fopen(path, "w"); fputs(text, fp); fclose(fp); file.open(path); unlink(path); }
+    verif_open_text(file, text);
 #endif
     ms.m._errors = &e1;
     fs.f._parent = &ms.m; fs.f._fileID = 0;
@@ -83,7 +93,7 @@ __attribute__((noinline)) long w_seek_end(const char *text, long *refs, int *nre
 #ifdef VSTD
     file.__load(text); file.opened = true;
 #else
-    { static char path[64]; snprintf(path, sizeof path, "/var/tmp/verif_c10_%d.p21", (int)getpid()); FILE *fp = fopen(path, "w"); fputs(text, fp); fclose(fp); file.open(path); unlink(path); }
+    verif_open_text(file, text);
 #endif
     ms.m._errors = &e1;
     fs.f._parent = &ms.m; fs.f._fileID = 0;
